@@ -1,3 +1,664 @@
+/-
+  Lemmas/ConcTC.lean — lemmas about the small-step timed-gate model (CircuitModel/Conc/TC.lean), used by
+  Props/C16Conc.lean.  Structure:
+    (A) pure list facts about `replay` (no concurrency);
+    (B) `SR`: the step function as a relation with one constructor per branch (`step_spec`);
+    (C) the global invariant `Inv` and its preservation by every step; `inv_run` lifts it to every schedule;
+    (D) no deadlock.
+-/
 import CircuitModel.Conc.TC
 namespace CM.Conc.TC
+
+/-! ### (A) replay -/
+
+@[simp] theorem isSuccess_success (t : Int) (b : Bool) : Ev.isSuccess (.success t b) = true := rfl
+@[simp] theorem isSuccess_start (t : Int) : Ev.isSuccess (.start t) = false := rfl
+@[simp] theorem isArming_success (t : Int) (b : Bool) : Ev.isArming (.success t b) = b := rfl
+@[simp] theorem isArming_start (t : Int) : Ev.isArming (.start t) = true := rfl
+
+theorem replay_append (s a : Int) (g : Gate) (l₁ l₂ : List Ev) :
+    replay s a g (l₁ ++ l₂) = (replay s a g l₁).bind (fun g' => replay s a g' l₂) := by
+  induction l₁ generalizing g with
+  | nil => simp [replay]
+  | cons e rest ih =>
+    simp only [List.cons_append, replay]
+    cases h : g.apply s a e with
+    | none => simp
+    | some g' => simp [ih]
+
+theorem replay_snoc (s a : Int) (g : Gate) (l : List Ev) (e : Ev) :
+    replay s a g (l ++ [e]) = (replay s a g l).bind (fun g' => g'.apply s a e) := by
+  rw [replay_append]
+  congr
+  funext g'
+  cases h : g'.apply s a e <;> simp [replay, h]
+
+theorem replay_append_some (s a : Int) (g g₂ : Gate) (l₁ l₂ : List Ev) :
+    replay s a g (l₁ ++ l₂) = some g₂ ↔ ∃ g₁, replay s a g l₁ = some g₁ ∧ replay s a g₁ l₂ = some g₂ := by
+  rw [replay_append]
+  cases replay s a g l₁ <;> simp
+
+theorem replay_snoc_some (s a : Int) (g g₂ : Gate) (l : List Ev) (e : Ev) :
+    replay s a g (l ++ [e]) = some g₂ ↔ ∃ g₁, replay s a g l = some g₁ ∧ g₁.apply s a e = some g₂ := by
+  rw [replay_snoc]
+  cases replay s a g l <;> simp
+
+theorem apply_start (s a : Int) (g : Gate) (t : Int) :
+    g.apply s a (.start t) = some { nextOpen := some (t + s), count := 0 } := rfl
+
+theorem apply_success_some (s a : Int) (g g' : Gate) (t : Int) (b : Bool) :
+    g.apply s a (.success t b) = some g' ↔
+      g.after t = false ∧ decide (g.count + 1 ≥ a) = b ∧
+      g' = (if b then { nextOpen := some (t + s), count := 0 } else { g with count := g.count + 1 }) := by
+  simp only [Gate.apply]
+  cases hafter : g.after t
+  · cases b <;> by_cases hc : g.count + 1 ≥ a <;> simp [hc, eq_comm]
+  · simp
+
+theorem snoc_induction {α : Type} {P : List α → Prop} (h0 : P [])
+    (hs : ∀ (l : List α) (e : α), P l → P (l ++ [e])) (l : List α) : P l := by
+  have : ∀ r : List α, P r.reverse := by
+    intro r
+    induction r with
+    | nil => exact h0
+    | cons e r ih => rw [List.reverse_cons]; exact hs _ _ ih
+  simpa using this l.reverse
+
+/-- SENTENCE 2 -/
+theorem accepted_budget' (sleep allow : Int) (log : List Ev) :
+    ∀ g, replay sleep allow {} log = some g →
+    0 ≤ g.count ∧ g.count < max 1 allow ∧
+    g.count = ((log.reverse.takeWhile fun e => !e.isArming).length : Int) := by
+  induction log using snoc_induction with
+  | h0 =>
+    intro g h
+    simp [replay] at h
+    subst h
+    simp
+    omega
+  | hs log e ih =>
+    intro g h
+    rw [replay_snoc_some] at h
+    obtain ⟨g₁, h₁, h₂⟩ := h
+    obtain ⟨ih0, ih1, ih2⟩ := ih g₁ h₁
+    rw [List.reverse_append, List.reverse_singleton, List.singleton_append, List.takeWhile_cons]
+    cases e with
+    | start t =>
+      rw [apply_start] at h₂
+      cases h₂
+      simp
+      omega
+    | success t b =>
+      rw [apply_success_some] at h₂
+      obtain ⟨_, hb, rfl⟩ := h₂
+      cases b
+      · simp at hb
+        simp
+        omega
+      · simp
+        omega
+
+theorem replay_nonarming_nextOpen (s a : Int) (mid : List Ev) (hmid : ∀ e ∈ mid, e.isArming = false) :
+    ∀ g g', replay s a g mid = some g' → g'.nextOpen = g.nextOpen := by
+  induction mid with
+  | nil => intro g g' h; simp [replay] at h; rw [h]
+  | cons e rest ih =>
+    intro g g' h
+    simp only [replay] at h
+    cases hap : g.apply s a e with
+    | none => simp [hap] at h
+    | some g₁ =>
+      simp only [hap] at h
+      have h1 := ih (fun e he => hmid e (by simp [he])) g₁ g' h
+      have he := hmid e (by simp)
+      cases e with
+      | start t => simp at he
+      | success t b =>
+        simp only [isArming_success] at he
+        subst he
+        rw [apply_success_some] at hap
+        obtain ⟨_, _, rfl⟩ := hap
+        simpa using h1
+
+theorem apply_arming_nextOpen (s a : Int) (g g' : Gate) (arm : Ev) (harm : arm.isArming = true)
+    (h : g.apply s a arm = some g') : g'.nextOpen = some (arm.time + s) := by
+  cases arm with
+  | start t => rw [apply_start] at h; cases h; rfl
+  | success t b =>
+    simp only [isArming_success] at harm
+    subst harm
+    rw [apply_success_some] at h
+    obtain ⟨_, _, rfl⟩ := h
+    rfl
+
+/-- SENTENCE 1 -/
+theorem accepted_sleep_respected' (sleep allow : Int) (pre mid : List Ev) (arm : Ev) (t : Int) (b : Bool) (g : Gate)
+    (harm : arm.isArming = true) (hmid : ∀ e ∈ mid, e.isArming = false)
+    (hacc : replay sleep allow {} (pre ++ [arm] ++ mid ++ [.success t b]) = some g) :
+    arm.time + sleep ≤ t := by
+  rw [replay_snoc_some] at hacc
+  obtain ⟨g₃, h₃, hlast⟩ := hacc
+  rw [replay_append_some] at h₃
+  obtain ⟨g₂, h₂, hmid'⟩ := h₃
+  rw [replay_snoc_some] at h₂
+  obtain ⟨g₁, _, harm'⟩ := h₂
+  have e1 := apply_arming_nextOpen sleep allow g₁ g₂ arm harm harm'
+  have e2 := replay_nonarming_nextOpen sleep allow mid hmid g₂ g₃ hmid'
+  rw [apply_success_some] at hlast
+  have := hlast.1
+  simp [Gate.after, e2, e1] at this
+  exact this
+
+/-- the two-phase invariant behind the one-period bound -/
+theorem one_period_inv (sleep allow lo : Int) (log : List Ev)
+    (htimes : ∀ e ∈ log, lo ≤ e.time ∧ e.time < lo + sleep) :
+    ∀ g, replay sleep allow {} log = some g →
+      (g.nextOpen = none ∧ ((log.filter Ev.isSuccess).length : Int) = g.count ∧ g.count < max 1 allow) ∨
+      (∃ L, g.nextOpen = some L ∧ lo + sleep ≤ L ∧ ((log.filter Ev.isSuccess).length : Int) ≤ max 1 allow) := by
+  induction log using snoc_induction with
+  | h0 =>
+    intro g h
+    simp [replay] at h
+    subst h
+    left
+    simp
+    omega
+  | hs log e ih =>
+    intro g h
+    rw [replay_snoc_some] at h
+    obtain ⟨g₁, h₁, h₂⟩ := h
+    have ht := htimes e (by simp)
+    have ih' := ih (fun e he => htimes e (by simp [he])) g₁ h₁
+    rw [List.filter_append, List.length_append]
+    cases e with
+    | start t =>
+      rw [apply_start] at h₂
+      cases h₂
+      right
+      simp only [Ev.time] at ht
+      refine ⟨t + sleep, rfl, by omega, ?_⟩
+      simp
+      rcases ih' with ⟨_, h2, h3⟩ | ⟨L, _, _, h3⟩ <;> omega
+    | success t b =>
+      simp only [Ev.time] at ht
+      rw [apply_success_some] at h₂
+      obtain ⟨hafter, hb, rfl⟩ := h₂
+      rcases ih' with ⟨h1, h2, h3⟩ | ⟨L, h1, h2, h3⟩
+      · cases b
+        · left
+          simp at hb
+          simp [List.filter_cons, h1]
+          omega
+        · right
+          refine ⟨t + sleep, rfl, by omega, ?_⟩
+          simp [List.filter_cons]
+          omega
+      · exfalso
+        simp [Gate.after, h1] at hafter
+        omega
+
+/-! ### (B) the step function as a relation -/
+
+inductive SR (i : Nat) (s : Shared) : Local → Shared → Local → Prop
+  | beginCheckFF (t : Int) : s.fastFail = true → SR i s ⟨.check t, .begin⟩ s ⟨.check t, .done (some false)⟩
+  | beginCheck (t : Int) : s.fastFail = false → SR i s ⟨.check t, .begin⟩ s ⟨.check t, .rlock⟩
+  | beginStart (t : Int) : SR i s ⟨.start t, .begin⟩ s ⟨.start t, .wlock⟩
+  | beginFire (k : Nat) (v : Int) : s.armed[k]? = some v → SR i s ⟨.fire k, .begin⟩ s ⟨.fire k, .cbLoadVersion v⟩
+  | beginFireNone (k : Nat) : s.armed[k]? = none → SR i s ⟨.fire k, .begin⟩ s ⟨.fire k, .done none⟩
+  | rlock (t : Int) : s.writer = none →
+      SR i s ⟨.check t, .rlock⟩ { s with readers := s.readers + 1 } ⟨.check t, .runlock (nextAfter s t)⟩
+  | runlockAfter (j : Job) :
+      SR i s ⟨j, .runlock true⟩ { s with readers := s.readers - 1 } ⟨j, .done (some false)⟩
+  | runlockOk (j : Job) :
+      SR i s ⟨j, .runlock false⟩ { s with readers := s.readers - 1 } ⟨j, .wlock⟩
+  | wlock (j : Job) : s.writer = none → s.readers = 0 →
+      SR i s ⟨j, .wlock⟩ { s with writer := some i } ⟨j, .critical⟩
+  | critAfter (t : Int) : nextAfter s t = true → SR i s ⟨.check t, .critical⟩ s ⟨.check t, .wunlock false⟩
+  | critOk (t : Int) : nextAfter s t = false →
+      SR i s ⟨.check t, .critical⟩ { s with count := s.count + 1 } ⟨.check t, .loadAllow⟩
+  | critStart (t : Int) : SR i s ⟨.start t, .critical⟩ s ⟨.start t, .resetLoadSleep t false⟩
+  | allowReset (t : Int) : s.count ≥ s.allow → SR i s ⟨.check t, .loadAllow⟩ s ⟨.check t, .resetLoadSleep t true⟩
+  | allowOk (t : Int) : s.count < s.allow →
+      SR i s ⟨.check t, .loadAllow⟩ { s with events := s.events ++ [.success t false] } ⟨.check t, .wunlock true⟩
+  | resetLoadSleep (j : Job) (t : Int) (ret : Bool) :
+      SR i s ⟨j, .resetLoadSleep t ret⟩ { s with nextOpen := some (t + s.sleep), count := 0 } ⟨j, .resetStoreFF t ret⟩
+  | resetStoreFF (j : Job) (t : Int) (ret : Bool) :
+      SR i s ⟨j, .resetStoreFF t ret⟩ { s with fastFail := true } ⟨j, .resetAddVersion t ret⟩
+  | resetAddVersion (j : Job) (t : Int) (ret : Bool) :
+      SR i s ⟨j, .resetAddVersion t ret⟩ { s with version := s.version + 1 } ⟨j, .resetArm t ret⟩
+  | resetArm (j : Job) (t : Int) (ret : Bool) :
+      SR i s ⟨j, .resetArm t ret⟩
+        { s with armed := s.armed ++ [s.version],
+                 events := s.events ++ [if ret then .success t true else .start t] } ⟨j, .wunlock ret⟩
+  | wunlockCheck (t : Int) (ret : Bool) :
+      SR i s ⟨.check t, .wunlock ret⟩ { s with writer := none } ⟨.check t, .done (some ret)⟩
+  | wunlockStart (t : Int) (ret : Bool) :
+      SR i s ⟨.start t, .wunlock ret⟩ { s with writer := none } ⟨.start t, .done none⟩
+  | wunlockFire (k : Nat) (ret : Bool) :
+      SR i s ⟨.fire k, .wunlock ret⟩ { s with writer := none } ⟨.fire k, .done none⟩
+  | cbLoadEq (j : Job) (v : Int) : v = s.version → SR i s ⟨j, .cbLoadVersion v⟩ s ⟨j, .cbStoreFF⟩
+  | cbLoadNe (j : Job) (v : Int) : v ≠ s.version → SR i s ⟨j, .cbLoadVersion v⟩ s ⟨j, .done none⟩
+  | cbStoreFF (j : Job) : SR i s ⟨j, .cbStoreFF⟩ { s with fastFail := false } ⟨j, .done none⟩
+
+theorem step_spec (i : Nat) (s : Shared) (l : Local) (s' : Shared) (l' : Local)
+    (h : step i s l = some (s', l')) : SR i s l s' l' := by
+  obtain ⟨j, pc⟩ := l
+  cases pc <;> cases j <;> simp only [step] at h
+  all_goals (repeat' split at h)
+  all_goals cases h
+  all_goals first
+    | (constructor <;> simp_all)
+    | (rename_i hb; try simp only [Bool.not_eq_true] at hb
+       subst hb; constructor)
+
+/-! ### (C) the invariant -/
+
+theorem run_inv_tc {σ loc : Type} (S : Sys σ loc) (I : Config σ loc → Prop)
+    (hstep : ∀ (c : Config σ loc) (i : Nat) (l : loc) (s' : σ) (l' : loc), I c → c.locals[i]? = some l →
+      S.step i c.shared l = some (s', l') → I { shared := s', locals := c.locals.set i l' })
+    (c : Config σ loc) (h : I c) (sched : List Nat) : I (run S c sched) := by
+  induction sched generalizing c with
+  | nil => exact h
+  | cons i rest ih =>
+    simp only [run]
+    split
+    · exact ih c h
+    · rename_i l hl
+      split
+      · exact ih c h
+      · rename_i s' l' hs
+        exact ih _ (hstep c i l s' l' h hl hs)
+
+theorem countP_set_tc {α : Type} (p : α → Bool) (l : List α) (i : Nat) (a b : α) (h : l[i]? = some a) :
+    (l.set i b).countP p + (if p a then 1 else 0) = l.countP p + (if p b then 1 else 0) := by
+  induction l generalizing i with
+  | nil => simp at h
+  | cons x xs ih =>
+    cases i with
+    | zero =>
+      simp at h
+      subst h
+      simp only [List.set_cons_zero, List.countP_cons]
+      omega
+    | succ j =>
+      simp at h
+      have := ih j h
+      simp only [List.set_cons_succ, List.countP_cons]
+      omega
+
+theorem forall_set {α : Type} {P : Nat → α → Prop} (ls : List α) (i : Nat) (l l' : α) (hl : ls[i]? = some l)
+    (hother : ∀ j x, j ≠ i → ls[j]? = some x → P j x) (hself : P i l') :
+    ∀ j x, (ls.set i l')[j]? = some x → P j x := by
+  intro j x hx
+  by_cases hji : j = i
+  · subst hji
+    have hlt : j < ls.length := (List.getElem?_eq_some_iff.mp hl).1
+    rw [List.getElem?_set_self hlt] at hx
+    cases hx
+    exact hself
+  · rw [List.getElem?_set_ne (Ne.symm hji)] at hx
+    exact hother j x hji hx
+
+/-- program counters inside the write-locked region -/
+def W : Pc → Bool
+  | .critical | .loadAllow | .resetLoadSleep _ _ | .resetStoreFF _ _ | .resetAddVersion _ _ | .resetArm _ _
+  | .wunlock _ => true
+  | _ => false
+
+/-- program counters inside the read-locked region -/
+def R : Pc → Bool | .runlock _ => true | _ => false
+
+/-- program counters of a check that has logged its success -/
+def T : Pc → Bool | .wunlock true => true | .done (some true) => true | _ => false
+
+def isR (l : Local) : Bool := R l.pc
+def isT (l : Local) : Bool := T l.pc
+
+def needsCheck : Pc → Bool | .rlock | .runlock _ | .loadAllow => true | _ => false
+def noFire : Pc → Bool | .wlock | .critical => true | _ => false
+def retTime : Pc → Option Int
+  | .resetLoadSleep t ret | .resetStoreFF t ret | .resetAddVersion t ret | .resetArm t ret => if ret then some t else none
+  | _ => none
+def Job.isCheck : Job → Bool | .check _ => true | _ => false
+def Job.isFire : Job → Bool | .fire _ => true | _ => false
+
+/-- the program counter is compatible with the job -/
+structure WF (l : Local) : Prop where
+  chk : needsCheck l.pc = true → l.job.isCheck = true
+  nofire : noFire l.pc = true → l.job.isFire = false
+  time : ∀ t, retTime l.pc = some t → l.job = .check t
+
+/-- the protected fields `no` (nextOpenTime) and `cnt` (count) relative to the replayed gate `g`, as seen from a
+    thread at `l` (only informative inside the write-locked region) -/
+def DataAt (sleep allow : Int) (no : Option Int) (cnt : Int) (g : Gate) (l : Local) : Prop :=
+  match l.pc with
+  | .critical => no = g.nextOpen ∧ cnt = g.count
+  | .wunlock _ => no = g.nextOpen ∧ cnt = g.count
+  | .loadAllow => no = g.nextOpen ∧ cnt = g.count + 1 ∧ ∀ t, l.job = .check t → g.after t = false
+  | .resetLoadSleep t ret => ret = true → (no = g.nextOpen ∧ cnt = g.count + 1 ∧ g.after t = false ∧ cnt ≥ allow)
+  | .resetStoreFF t ret | .resetAddVersion t ret | .resetArm t ret =>
+    no = some (t + sleep) ∧ cnt = 0 ∧ (ret = true → g.after t = false ∧ g.count + 1 ≥ allow)
+  | _ => True
+
+structure TInv (sleep allow : Int) (c : Config Shared Local) : Prop where
+  hsleep : c.shared.sleep = sleep
+  hallow : c.shared.allow = allow
+  wf : ∀ (i : Nat) (l : Local), c.locals[i]? = some l → WF l
+  excl : ∀ (i : Nat) (l : Local), c.locals[i]? = some l → W l.pc = true → c.shared.writer = some i
+  holder : ∀ i : Nat, c.shared.writer = some i → ∃ l, c.locals[i]? = some l ∧ W l.pc = true
+  readers : c.shared.readers = c.locals.countP isR
+  wr : c.shared.writer.isSome = true → c.shared.readers = 0
+  data : ∃ g, replay sleep allow {} c.shared.events = some g ∧
+      (c.shared.writer = none → c.shared.nextOpen = g.nextOpen ∧ c.shared.count = g.count) ∧
+      ∀ (i : Nat) (l : Local), c.locals[i]? = some l → DataAt sleep allow c.shared.nextOpen c.shared.count g l
+  logged : ∀ (i : Nat) (l : Local) (t : Int), c.locals[i]? = some l → l.job = .check t → T l.pc = true →
+      ∃ b, Ev.success t b ∈ c.shared.events
+  counted : c.locals.countP isT ≤ c.shared.events.countP Ev.isSuccess
+
+section step
+variable {sleep allow : Int} {s : Shared} {ls : List Local} {i : Nat} {l : Local} {s' : Shared} {l' : Local}
+
+theorem static_step (hs : SR i s l s' l') : s'.sleep = s.sleep ∧ s'.allow = s.allow := by
+  cases hs <;> exact ⟨rfl, rfl⟩
+
+theorem wf_step (h : TInv sleep allow ⟨s, ls⟩) (hl : ls[i]? = some l) (hs : SR i s l s' l') :
+    ∀ (j : Nat) (x : Local), (ls.set i l')[j]? = some x → WF x := by
+  apply forall_set ls i l l' hl (fun j x _ hj => h.wf j x hj)
+  obtain ⟨hc, hf, ht⟩ := h.wf i l hl
+  cases hs with
+  | runlockOk j => cases j <;> constructor <;> simp_all [needsCheck, noFire, retTime, Job.isCheck, Job.isFire]
+  | _ => constructor <;> simp_all [needsCheck, noFire, retTime, Job.isCheck, Job.isFire]
+
+theorem excl_step (h : TInv sleep allow ⟨s, ls⟩) (hl : ls[i]? = some l) (hs : SR i s l s' l') :
+    ∀ (j : Nat) (x : Local), (ls.set i l')[j]? = some x → W x.pc = true → s'.writer = some j := by
+  have hi := h.excl i l hl
+  refine forall_set (P := fun j x => W x.pc = true → s'.writer = some j) ls i l l' hl ?_ ?_
+  · intro j x hji hj hW
+    have hj' := h.excl j x hj hW
+    cases hs <;> simp_all [W]
+  · cases hs <;> simp_all [W]
+
+theorem holder_step (h : TInv sleep allow ⟨s, ls⟩) (hl : ls[i]? = some l) (hs : SR i s l s' l') :
+    ∀ j : Nat, s'.writer = some j → ∃ x, (ls.set i l')[j]? = some x ∧ W x.pc = true := by
+  intro j hj
+  have hlt : i < ls.length := (List.getElem?_eq_some_iff.mp hl).1
+  have hold : s.writer = some i → W l.pc = true := by
+    intro hw
+    obtain ⟨x, hx, hW⟩ := h.holder i hw
+    rw [hl] at hx
+    cases hx
+    exact hW
+  have hi := h.excl i l hl
+  by_cases hji : j = i
+  · subst hji
+    refine ⟨l', List.getElem?_set_self hlt, ?_⟩
+    cases hs <;> simp_all [W]
+  · rw [List.getElem?_set_ne (Ne.symm hji)]
+    apply h.holder
+    cases hs <;> simp_all [W]
+
+theorem readers_step (h : TInv sleep allow ⟨s, ls⟩) (hl : ls[i]? = some l) (hs : SR i s l s' l') :
+    s'.readers = (ls.set i l').countP isR := by
+  have h1 := countP_set_tc isR ls i l l' hl
+  have h2 := h.readers
+  cases hs <;> simp [isR, R] at h1 <;> simp only [] at h2 ⊢ <;> omega
+
+theorem wr_step (h : TInv sleep allow ⟨s, ls⟩) (hs : SR i s l s' l') :
+    s'.writer.isSome = true → s'.readers = 0 := by
+  have h1 := h.wr
+  cases hs <;> simp_all
+
+theorem counted_step (h : TInv sleep allow ⟨s, ls⟩) (hl : ls[i]? = some l) (hs : SR i s l s' l') :
+    (ls.set i l').countP isT ≤ s'.events.countP Ev.isSuccess := by
+  have h1 := countP_set_tc isT ls i l l' hl
+  have h2 := h.counted
+  cases hs with
+  | resetArm j t ret | wunlockCheck t ret | wunlockStart t ret | wunlockFire k ret =>
+    cases ret <;> simp [isT, T, List.countP_append] at h1 h2 ⊢ <;> omega
+  | _ => simp [isT, T, List.countP_append] at h1 h2 ⊢ <;> omega
+
+theorem events_mono (hs : SR i s l s' l') : ∀ e, e ∈ s.events → e ∈ s'.events := by
+  intro e he
+  cases hs <;> simp [he]
+
+theorem logged_step (h : TInv sleep allow ⟨s, ls⟩) (hl : ls[i]? = some l) (hs : SR i s l s' l') :
+    ∀ (j : Nat) (x : Local) (t : Int), (ls.set i l')[j]? = some x → x.job = .check t → T x.pc = true →
+      ∃ b, Ev.success t b ∈ s'.events := by
+  intro j x t
+  refine forall_set (P := fun _ x => x.job = .check t → T x.pc = true → ∃ b, Ev.success t b ∈ s'.events)
+    ls i l l' hl ?_ ?_ j x
+  · intro j x _ hj hjob hT
+    obtain ⟨b, hb⟩ := h.logged j x t hj hjob hT
+    exact ⟨b, events_mono hs _ hb⟩
+  · have hi := h.logged i l t hl
+    have hw := (h.wf i l hl).time
+    intro hjob hT
+    cases hs with
+    | resetArm j t ret | wunlockCheck t ret | wunlockStart t ret | wunlockFire k ret =>
+      cases ret <;> simp_all [T, retTime]
+    | _ => simp_all [T, retTime]
+
+theorem nextAfter_eq (s : Shared) (g : Gate) (t : Int) (h : s.nextOpen = g.nextOpen) :
+    nextAfter s t = g.after t := by
+  simp [nextAfter, Gate.after, h]
+
+theorem dataAt_of_notW {no : Option Int} {cnt : Int} {g : Gate} {x : Local} (h : W x.pc = false) :
+    DataAt sleep allow no cnt g x := by
+  unfold DataAt
+  split <;> simp_all [W]
+
+theorem data_step (h : TInv sleep allow ⟨s, ls⟩) (hl : ls[i]? = some l) (hs : SR i s l s' l') :
+    ∃ g, replay sleep allow {} s'.events = some g ∧
+      (s'.writer = none → s'.nextOpen = g.nextOpen ∧ s'.count = g.count) ∧
+      ∀ (j : Nat) (x : Local), (ls.set i l')[j]? = some x → DataAt sleep allow s'.nextOpen s'.count g x := by
+  obtain ⟨g, hg, hnone, hdata⟩ := h.data
+  have hi := h.excl i l hl
+  have hd := hdata i l hl
+  have hsl := h.hsleep
+  have hal := h.hallow
+  have hoth : W l.pc = true → ∀ (j : Nat) (x : Local), j ≠ i → ls[j]? = some x → W x.pc = false := by
+    intro hW j x hji hj
+    cases hWx : W x.pc with
+    | false => rfl
+    | true =>
+      have h1 := h.excl j x hj hWx
+      have h2 := hi hW
+      rw [h1] at h2
+      exact absurd (Option.some.inj h2) hji
+  simp only [] at hnone hdata hi hd hsl hal
+  cases hs with
+  | allowOk t hlt =>
+    simp only [DataAt] at hd
+    have hw := hi (by simp [W])
+    refine ⟨{ g with count := g.count + 1 }, ?_, ?_, ?_⟩
+    · rw [replay_snoc_some]
+      refine ⟨g, hg, ?_⟩
+      rw [apply_success_some]
+      refine ⟨hd.2.2 t rfl, ?_, by simp⟩
+      simp
+      omega
+    · intro hn
+      simp [hw] at hn
+    · refine forall_set ls i _ _ hl ?_ ?_
+      · intro j x hji hj
+        exact dataAt_of_notW (hoth (by simp [W]) j x hji hj)
+      · exact ⟨hd.1, hd.2.1⟩
+  | resetArm j t ret =>
+    simp only [DataAt] at hd
+    have hw := hi (by simp [W])
+    refine ⟨{ nextOpen := some (t + sleep), count := 0 }, ?_, ?_, ?_⟩
+    · rw [replay_snoc_some]
+      refine ⟨g, hg, ?_⟩
+      cases ret with
+      | false => simp [apply_start]
+      | true =>
+        simp only [if_true]
+        rw [apply_success_some]
+        have := hd.2.2 rfl
+        refine ⟨this.1, ?_, by simp⟩
+        simp
+        omega
+    · intro hn
+      simp [hw] at hn
+    · refine forall_set ls i _ _ hl ?_ ?_
+      · intro j x hji hj
+        exact dataAt_of_notW (hoth (by simp [W]) j x hji hj)
+      · exact ⟨hd.1, hd.2.1⟩
+  | critOk t hna =>
+    simp only [DataAt] at hd
+    have hw := hi (by simp [W])
+    refine ⟨g, hg, ?_, ?_⟩
+    · intro hn
+      simp [hw] at hn
+    · refine forall_set ls i _ _ hl ?_ ?_
+      · intro j x hji hj
+        exact dataAt_of_notW (hoth (by simp [W]) j x hji hj)
+      · simp only [DataAt]
+        refine ⟨hd.1, by omega, ?_⟩
+        intro t' ht'
+        cases ht'
+        rw [← nextAfter_eq s g t hd.1]
+        exact hna
+  | resetLoadSleep j t ret =>
+    simp only [DataAt] at hd
+    have hw := hi (by simp [W])
+    refine ⟨g, hg, ?_, ?_⟩
+    · intro hn
+      simp [hw] at hn
+    · refine forall_set ls i _ _ hl ?_ ?_
+      · intro j x hji hj
+        exact dataAt_of_notW (hoth (by simp [W]) j x hji hj)
+      · simp only [DataAt]
+        refine ⟨by rw [hsl], trivial, ?_⟩
+        intro hr
+        obtain ⟨_, h2, h3, h4⟩ := hd hr
+        exact ⟨h3, by omega⟩
+  | _ =>
+    refine ⟨g, hg, ?_, ?_⟩
+    · clear hdata
+      simp_all [W, DataAt]
+    · refine forall_set ls i _ _ hl ?_ ?_
+      · intro j x hji hj
+        first
+          | exact hdata j x hj
+          | exact dataAt_of_notW (hoth (by simp [W]) j x hji hj)
+      · clear hdata
+        simp_all [W, DataAt]
+
+theorem inv_step (h : TInv sleep allow ⟨s, ls⟩) (hl : ls[i]? = some l) (hs : SR i s l s' l') :
+    TInv sleep allow ⟨s', ls.set i l'⟩ where
+  hsleep := (static_step hs).1.trans h.hsleep
+  hallow := (static_step hs).2.trans h.hallow
+  wf := wf_step h hl hs
+  excl := excl_step h hl hs
+  holder := holder_step h hl hs
+  readers := readers_step h hl hs
+  wr := wr_step h hs
+  data := data_step h hl hs
+  logged := logged_step h hl hs
+  counted := counted_step h hl hs
+
+end step
+
+theorem init_pc (sleep allow : Int) (jobs : List Job) (i : Nat) (l : Local)
+    (h : (init sleep allow jobs).locals[i]? = some l) : l.pc = .begin := by
+  simp only [init, List.getElem?_map, Option.map_eq_some_iff] at h
+  obtain ⟨a, _, rfl⟩ := h
+  rfl
+
+theorem init_countP (sleep allow : Int) (jobs : List Job) (p : Local → Bool)
+    (hp : ∀ l : Local, l.pc = .begin → p l = false) : (init sleep allow jobs).locals.countP p = 0 := by
+  rw [List.countP_eq_zero]
+  intro l hl
+  obtain ⟨i, hi⟩ := List.mem_iff_getElem?.mp hl
+  simp [hp l (init_pc sleep allow jobs i l hi)]
+
+theorem inv_init (sleep allow : Int) (jobs : List Job) : TInv sleep allow (init sleep allow jobs) where
+  hsleep := rfl
+  hallow := rfl
+  wf := by
+    intro i l hl
+    have := init_pc sleep allow jobs i l hl
+    constructor <;> simp [this, needsCheck, noFire, retTime]
+  excl := by
+    intro i l hl hW
+    rw [init_pc sleep allow jobs i l hl] at hW
+    simp [W] at hW
+  holder := by
+    intro i hw
+    simp [init] at hw
+  readers := by
+    rw [init_countP sleep allow jobs isR (fun l hl => by simp [isR, hl, R])]
+    rfl
+  wr := by
+    simp [init]
+  data := by
+    refine ⟨{}, rfl, fun _ => ⟨rfl, rfl⟩, ?_⟩
+    intro i l hl
+    exact dataAt_of_notW (by rw [init_pc sleep allow jobs i l hl]; rfl)
+  logged := by
+    intro i l t hl _ hT
+    rw [init_pc sleep allow jobs i l hl] at hT
+    simp [T] at hT
+  counted := by
+    rw [init_countP sleep allow jobs isT (fun l hl => by simp [isT, hl, T])]
+    exact Nat.zero_le _
+
+theorem inv_run (sleep allow : Int) (jobs : List Job) (sched : List Nat) :
+    TInv sleep allow (run sys (init sleep allow jobs) sched) :=
+  run_inv_tc sys (TInv sleep allow)
+    (fun c i l s' l' h hl hs => inv_step (s := c.shared) (ls := c.locals) h hl (step_spec i c.shared l s' l' hs))
+    _ (inv_init sleep allow jobs) sched
+
+/-! ### (D) no deadlock -/
+
+theorem enabled_of (i : Nat) (s : Shared) (l : Local) (hwf : WF l) (hnd : ∀ r, l.pc ≠ .done r)
+    (hr : l.pc = .rlock → s.writer = none) (hw : l.pc = .wlock → s.writer = none ∧ s.readers = 0) :
+    (step i s l).isSome = true := by
+  obtain ⟨j, pc⟩ := l
+  obtain ⟨hc, hf, _⟩ := hwf
+  cases pc <;> cases j <;> simp_all [step, needsCheck, noFire, Job.isCheck, Job.isFire]
+  all_goals (split <;> rfl)
+
+theorem no_deadlock (sleep allow : Int) (c : Config Shared Local) (h : TInv sleep allow c)
+    (hq : quiescent c = false) : ∃ i l, c.locals[i]? = some l ∧ (step i c.shared l).isSome = true := by
+  cases hw : c.shared.writer with
+  | some i =>
+    obtain ⟨l, hl, hW⟩ := h.holder i hw
+    refine ⟨i, l, hl, enabled_of i _ l (h.wf i l hl) ?_ ?_ ?_⟩
+    · intro r hpc
+      rw [hpc] at hW
+      simp [W] at hW
+    · intro hpc
+      rw [hpc] at hW
+      simp [W] at hW
+    · intro hpc
+      rw [hpc] at hW
+      simp [W] at hW
+  | none =>
+    by_cases hr : c.shared.readers = 0
+    · simp only [quiescent, List.all_eq_false] at hq
+      obtain ⟨l, hmem, hnd⟩ := hq
+      obtain ⟨i, hi⟩ := List.mem_iff_getElem?.mp hmem
+      refine ⟨i, l, hi, enabled_of i _ l (h.wf i l hi) ?_ (fun _ => hw) (fun _ => ⟨hw, hr⟩)⟩
+      intro r hpc
+      rw [hpc] at hnd
+      simp at hnd
+    · have hpos : 0 < c.locals.countP isR := by
+        have := h.readers
+        omega
+      obtain ⟨l, hmem, hR⟩ := List.countP_pos_iff.mp hpos
+      obtain ⟨i, hi⟩ := List.mem_iff_getElem?.mp hmem
+      simp only [isR] at hR
+      refine ⟨i, l, hi, enabled_of i _ l (h.wf i l hi) ?_ ?_ ?_⟩
+      · intro r hpc
+        rw [hpc] at hR
+        simp [R] at hR
+      · intro hpc
+        rw [hpc] at hR
+        simp [R] at hR
+      · intro hpc
+        rw [hpc] at hR
+        simp [R] at hR
+
 end CM.Conc.TC
